@@ -91,7 +91,7 @@ func historyStatements() (pool, subjects []hstmt) {
 func historyLayouts(r *ev.Run) []Layout {
 	var out []Layout
 	maxNS := r.Pick(2, 3)
-	for _, l := range layouts(maxNS, 2, r.Thorough()) {
+	for _, l := range layouts(maxNS, 2, r.Thorough(), r.Thorough()) {
 		if l.DBs == "mixed" {
 			continue
 		}
